@@ -1,7 +1,10 @@
 """C11 Enumeration constants keep their C++ values in C and Fortran (DESIGN.md 6/C11)."""
 from contracts import ast_enum as E
 
-MONITORS = {"EnumNode.__init__[values]": ("m_enum", lambda v: None, lambda nm: None, 4000)}
+MONITORS = {"EnumNode.__init__[values]": ("m_enum", lambda v: None, lambda nm: None, 4000),
+            "Wrapc.wrap_enum": ("m_enum_e2e", lambda v: None, lambda nm: None, 80),
+            "Wrapf.wrap_enum": ("m_enum_e2e", lambda v: None, lambda nm: None, 80),
+            "PrintNodeIdentifier.visit_Constant": ("m_enum_e2e", lambda v: None, lambda nm: None, 80)}
 
 
 def run(ctx):
@@ -23,7 +26,9 @@ def run(ctx):
         if isinstance(n, _ast.ClassDef) and n.name == "PrintNodeIdentifier":
             methods = sorted(m.name for m in n.body if isinstance(m, _ast.FunctionDef))
             for m in methods:
-                ctx.item("C11/PrintNodeIdentifier/overrides:%s" % m, m in ("__init__", "visit_Identifier"),
+                # visit_Constant is under its own contract (PrintNodeIdentifier.visit_Constant: verbatim, octal -> decimal
+                # for Fortran)
+                ctx.item("C11/PrintNodeIdentifier/overrides:%s" % m, m in ("__init__", "visit_Identifier", "visit_Constant"),
                          "PrintNodeIdentifier overrides %s: the structural printer methods verified on PrintNode no longer apply "
                          "to enum value expressions" % m, sample={"class": "PrintNodeIdentifier", "method": m})
     ctx.trusted += [
@@ -32,7 +37,18 @@ def run(ctx):
         "expression that evaluates to the parsed expression's value in the target language (printer contract, C09)",
         "pyvc, z3/cvc5; enum members as a symbolic list of records (name, optional value node)",
     ]
-    ctx.not_covered += ["the compilers' own evaluation; wrapp.wrap_enum; emission loops wrapc.wrap_enum / wrapf.wrap_enum"]
+    ctx.not_covered += ["wrapp.wrap_enum / Lua constants; ExprParser.expression precedence (bounded monitor only)"]
+    # bounded stand-in at the property's observation point: g++ on original + generated header, gfortran on the module
+    n = 120 if ctx.tier == "quick" else 100000
+    r = ctx.monitor("m_enum_e2e", "psearch", n, ctx.seed, 16)
+    ctx.bounded.append({"monitor": "m_enum_e2e", "inputs_tried": r["tried"], "violation": r["violation"],
+                        "kind": "bounded: enumerations over 29 value forms (signed/octal literals, references to earlier members, "
+                                "unary signs next to * and /, parenthesised and mixed expressions, explicit 0 after a larger "
+                                "value, scoped enums, C and C++ libraries): g++ prints the original and the generated header's "
+                                "enumerators, gfortran the module's parameters",
+                        "bound": "%d libraries" % r["tried"]})
+    if r["violation"]:
+        ctx.violation("bounded/m_enum_e2e", {"inputs": r["inputs"], "observed": r["violation"]}, True)
     if ctx.tier == "thorough":
         r = ctx.monitor("m_enum", "search", 20000, ctx.seed)
         ctx.bounded.append({"monitor": "m_enum", "inputs_tried": r["tried"], "violation": r["violation"],
